@@ -5,10 +5,14 @@ import (
 	"io"
 	"log"
 	"os"
+	"sync"
 )
 
 var (
-	out = io.Discard
+	// Guards the variables below. The -log command can run concurrently with
+	// itself (run-parallel, peach).
+	mutex sync.Mutex
+	out   = io.Discard
 	// If out is set by SetOutputFile, outFile is set and keeps the same value
 	// as out. Otherwise, outFile is nil.
 	outFile *os.File
@@ -17,6 +21,8 @@ var (
 
 // GetLogger gets a logger with a prefix.
 func GetLogger(prefix string) *log.Logger {
+	mutex.Lock()
+	defer mutex.Unlock()
 	logger := log.New(out, prefix, log.LstdFlags)
 	loggers = append(loggers, logger)
 	return logger
@@ -26,6 +32,12 @@ func GetLogger(prefix string) *log.Logger {
 // new io.Writer. If the old output was a file opened by SetOutputFile, it is
 // closed.
 func SetOutput(newout io.Writer) {
+	mutex.Lock()
+	defer mutex.Unlock()
+	setOutput(newout)
+}
+
+func setOutput(newout io.Writer) {
 	if outFile != nil {
 		outFile.Close()
 		outFile = nil
@@ -49,7 +61,9 @@ func SetOutputFile(fname string) error {
 	if err != nil {
 		return err
 	}
-	SetOutput(file)
+	mutex.Lock()
+	defer mutex.Unlock()
+	setOutput(file)
 	outFile = file
 	return nil
 }
